@@ -358,6 +358,27 @@ class Interp:
                 out.setdefault(n.name, []).append(None)
             elif isinstance(n, ast.NamedExpr):
                 add_target(n.target, n.value)
+        # `if c: x = a` / `else: x = b` (the only two bindings of x) is the conditional expression `a if c else b`
+        parents = self.prog.parents
+        for name, vals in list(out.items()):
+            if len(vals) != 2 or not all(isinstance(v, ast.expr) for v in vals):
+                continue
+            sts = [parents.get(v) for v in vals]
+            if not all(isinstance(st, (ast.Assign, ast.AnnAssign)) for st in sts):
+                continue
+            ifs = [parents.get(st) for st in sts]
+            if ifs[0] is None or ifs[0] is not ifs[1] or not isinstance(ifs[0], ast.If):
+                continue
+            node = ifs[0]
+            in_body = [any(st is x for x in node.body) for st in sts]
+            in_else = [any(st is x for x in node.orelse) for st in sts]
+            if in_body == [True, False] and in_else == [False, True]:
+                a, b = vals
+            elif in_body == [False, True] and in_else == [True, False]:
+                b, a = vals
+            else:
+                continue
+            out[name] = [ast.copy_location(ast.IfExp(test=node.test, body=a, orelse=b), node)]
         self._local_assign_cache[f] = out
         return out
 
